@@ -127,6 +127,9 @@ GEN_TYPES = [
     ("EnDefault", 1, "#[derive(TS)] #[ts(export)] pub enum EnDefault<T = Marker> { A, #[ts(skip)] B(std::marker::PhantomData<T>) }"),
     ("Concrete", 1, "#[derive(TS)] #[ts(export, concrete(T = Far))] pub struct Concrete<T> { t: T }"),
     ("Unit", 0, "#[derive(TS)] #[ts(export)] pub struct Unit;"),
+    ("Aliased", 0, "pub type Items = Vec<Leaf>; pub type Lookup = std::collections::HashMap<String, Far>; pub type Boxed = Box<Marker>;\n"
+                   "#[derive(TS)] #[ts(export)] pub struct Aliased { items: Items, lookup: Lookup, b: Option<Boxed> }"),
+    ("AliasedEnum", 0, "pub type Pairs = (Leaf, Far);\n#[derive(TS)] #[ts(export)] pub enum AliasedEnum { A(Pairs), B { p: Items } }"),
     ("NewtypeDefault", 1, '#[derive(TS)] #[ts(export)] pub struct NewtypeDefault<T = Far>(#[ts(type = "number")] std::marker::PhantomData<T>);'),
 ]
 
@@ -197,4 +200,4 @@ fn oracle() {
     for v in viol[:2]:
         ctx.fail(v["what"], v)
     return {"types": len(GEN_TYPES), "files": files, "violations": len(viol),
-            "rule": "each generated export_bindings_* test run in its own process under TS_RS_EXPORT_DIR: the tree equals what export_all_to leaves for the generics-erased type, and every import in it resolves to a written file declaring the name (dependencies through fields, generic arguments, inline, flatten, `as`, parameter defaults only, cycles, concrete parameters)"}
+            "rule": "each generated export_bindings_* test run in its own process under TS_RS_EXPORT_DIR: the tree equals what export_all_to leaves for the generics-erased type, and every import in it resolves to a written file declaring the name (dependencies through fields, generic arguments, type aliases of containers, inline, flatten, `as`, parameter defaults only, cycles, concrete parameters)"}
